@@ -568,7 +568,12 @@ class RequestHandler(BaseProtocol, Generic[_Request]):
         """
         self._close = True
         if self._waiter:
+            # Idle: waiting for the next request, no handler is running and
+            # nothing is left to be written, so close the connection now.
             self._waiter.cancel()
+            if self.transport is not None:
+                self.transport.close()
+                self.transport = None
 
     def force_close(self) -> None:
         """Forcefully close connection."""
